@@ -6,13 +6,33 @@
 cd /verif
 TIER=${1:-quick}; shift
 PROPS=${@:-C01 C02 C03 C04 C05 C06 C07 C08 C09 C10 C11 C12 C13 C14 C15 C16 C17 C18 C19 C20}
-COV=/verif/build/coverage; rm -rf $COV; mkdir -p $COV/raw
+COV=/verif/build/coverage; rm -rf $COV; mkdir -p $COV/raw $COV/raw_atomic
 for p in $PROPS; do
   VERIF_COVER=$COV/raw VERIF_SCRATCH=/tmp/cov_$$ ./check $p $TIER 2>&1 | tail -1
 done
 rm -rf /tmp/cov_$$
 source tools/goenv.sh
-(cd /repo && $VGO tool covdata textfmt -i=$COV/raw -o $COV/profile.txt && $VGO tool cover -func=$COV/profile.txt > $COV/func.txt)
-grep -v '100.0%' $COV/func.txt | sort -t: -k1,1 -k2,2n > $COV/notfull.txt
+cd /repo
+$VGO tool covdata textfmt -i=$COV/raw -o $COV/p1.txt
+[ -n "$(ls $COV/raw_atomic)" ] && $VGO tool covdata textfmt -i=$COV/raw_atomic -o $COV/p2.txt
+python3 - $COV <<'PY'
+import sys, glob
+cov = sys.argv[1]
+seen = {}
+for f in glob.glob(cov + "/p[12].txt"):
+    for line in open(f):
+        if line.startswith("mode:"):
+            continue
+        key, n, c = line.rsplit(" ", 2)
+        if "/ecs/" not in key:
+            continue
+        seen[(key, n)] = max(seen.get((key, n), 0), 1 if int(c) > 0 else 0)
+with open(cov + "/profile.txt", "w") as o:
+    o.write("mode: set\n")
+    for (key, n), c in sorted(seen.items()):
+        o.write(f"{key} {n} {c}\n")
+PY
+$VGO tool cover -func=$COV/profile.txt > $COV/func.txt
+grep -v '100.0%' $COV/func.txt > $COV/notfull.txt
 tail -1 $COV/func.txt
 echo "functions never entered:"; awk '$NF=="0.0%"' $COV/func.txt
